@@ -123,6 +123,7 @@ func (r Promise[T]) dispatchOrAddCallback(cb onCompleteFunc[T]) {
 		return
 
 	case []onCompleteFunc[T]:
+		verifhook.Yield("append")
 		if r.status.CompareAndSwap(ap, append(status, cb)) {
 			return
 		}
